@@ -10,16 +10,18 @@ def matrix(fn):
     if not os.path.exists(p): return m
     for l in open(p):
         f = l.split()
-        if len(f) < 6 or not re.match(r'C\d\d[A-H]$', f[0]): continue
+        if len(f) < 6 or not re.match(r'C\d\d[A-I]$', f[0]): continue
         rc = int(f[3].split('=')[1]); viol = int(f[5].split('=')[1]); inc = int(f[6].split('=')[1])
         clauses = re.findall(r'clause=([^ (]+)', l)
         m.setdefault(f[0], {})[f[1] + ':' + f[2]] = {'exit': rc, 'violation_lines': viol, 'incomplete_bounds': inc, 'clauses': clauses}
     return m
 first, final, extra = matrix('round4-first-run.txt'), matrix('round4-final.txt'), matrix('round4-other-checks.txt')
-for d in sorted(glob.glob(os.path.join(here, 'seeded', 'C??[GH]'))):
+for fn, m in (('round5-first-run.txt', first), ('round5-final.txt', final), ('round5-other-checks.txt', extra)):
+    m.update(matrix(fn))
+for d in sorted(glob.glob(os.path.join(here, 'seeded', 'C??[GHI]'))):
     name = os.path.basename(d)
     a = json.load(open(os.path.join(d, 'meta.agent.json')))
-    vlog = os.path.join(here, 'logs', 'seed4', 'verify-%s.log' % name)
+    vlog = os.path.join(here, 'logs', 'seed5' if name[3] == 'I' else 'seed4', 'verify-%s.log' % name)
     old = {}
     if os.path.exists(os.path.join(d, 'meta.json')):
         old = json.load(open(os.path.join(d, 'meta.json')))
@@ -29,8 +31,8 @@ for d in sorted(glob.glob(os.path.join(here, 'seeded', 'C??[GH]'))):
         'breaks': a.get('summary'), 'needs_to_manifest': a.get('needs'), 'witness': a.get('witness'),
         'demo': {'file': 'demo_test.go', 'dir': a.get('demo_dir', '.') or '.'},
         'demo_dir': a.get('demo_dir', '.') or '.',
-        'written_by': 'independent sub-agent given only the property text, the list of functions earlier campaigns had used, and a scratch worktree (fourth campaign)',
-        'rebased': name in ('C02H',), 'campaign': 4, 'confirmed_independently': bool(confirmed),
+        'written_by': 'independent sub-agent given only the property text, the list of functions earlier campaigns had used, and a scratch worktree (' + ('fifth, one-change' if name[3] == 'I' else 'fourth') + ' campaign)',
+        'rebased': name in ('C02H',), 'campaign': 5 if name[3] == 'I' else 4, 'confirmed_independently': bool(confirmed),
         'what_was_run': [
             'tools/seedverify.sh on the staged change (scratch worktree: patch applies, go build, full test suite passes with the change, demo fails with it and passes without it)',
             'first run: each change against its own property\'s quick check as committed at 9ea9625 (vp run snapshot, scratch worktree through VERIF_REPO), before the changes were looked at; the machine was shared with a thorough-tier run, bounds that ran out of budget are counted in incomplete_bounds',
